@@ -9,6 +9,7 @@ require (
 	github.com/miekg/pkcs11 v1.1.1
 	github.com/rs/zerolog v1.33.0
 	github.com/sassoftware/relic/v8 v8.0.0
+	github.com/spf13/cobra v1.8.1
 	github.com/zalando/go-keyring v0.2.6
 	software.sslmate.com/src/go-pkcs12 v0.5.0
 )
@@ -82,7 +83,6 @@ require (
 	github.com/rogpeppe/go-internal v1.12.0 // indirect
 	github.com/rs/xid v1.5.0 // indirect
 	github.com/sassoftware/go-rpmutils v0.4.0 // indirect
-	github.com/spf13/cobra v1.8.1 // indirect
 	github.com/spf13/pflag v1.0.5 // indirect
 	github.com/streadway/amqp v1.1.0 // indirect
 	github.com/ulikunitz/xz v0.5.12 // indirect
